@@ -136,3 +136,68 @@ def redirect(ctx, prop, mod):
                       dict(mismatches=r['mismatches'][:20]))
         else:
             mod.die('redirect mismatch did not reproduce')
+
+
+def rule_vectors(seed, n):
+    import random
+    rng = random.Random(seed)
+    vs = [dict(minLength=8, maxLength=0, minLetters=0, minUpper=1, minLower=1, minNumeric=1, minSymbols=1, allowWhitespace=False),
+          dict(minLength=0, maxLength=0, minLetters=0, minUpper=0, minLower=0, minNumeric=0, minSymbols=0, allowWhitespace=True),
+          dict(minLength=0, maxLength=0, minLetters=0, minUpper=0, minLower=0, minNumeric=0, minSymbols=0, allowWhitespace=False),
+          dict(minLength=2, maxLength=4, minLetters=2, minUpper=1, minLower=1, minNumeric=1, minSymbols=1, allowWhitespace=True)]
+    # every single bound alone at 1 and 2, then seeded random vectors
+    for key in ('minLength', 'maxLength', 'minLetters', 'minUpper', 'minLower', 'minNumeric', 'minSymbols'):
+        for val in (1, 2, 3):
+            v = dict(vs[1]); v[key] = val; vs.append(v)
+    while len(vs) < n:
+        vs.append(dict(minLength=rng.randint(0, 5), maxLength=rng.choice([0, 0, 2, 3, 4, 5, 6]), minLetters=rng.randint(0, 2),
+                       minUpper=rng.randint(0, 2), minLower=rng.randint(0, 2), minNumeric=rng.randint(0, 2),
+                       minSymbols=rng.randint(0, 2), allowWhitespace=rng.random() < 0.5))
+    return vs[:n]
+
+
+def rules(ctx, prop, mod):
+    """policy clause of C19 (run in addition to the composite-model check)"""
+    maxlen, nvec, k = (4, 40, 2) if ctx.tier == 'quick' else (5, 120, 3)
+    vf = os.path.join(ctx.tmp, 'vectors.ndjson')
+    with open(vf, 'w') as f:
+        for v in rule_vectors(ctx.seed, nvec):
+            f.write(json.dumps(v) + '\n')
+    rows = tlc_enum(ctx, mod, 'Rules', 'SPECIFICATION Spec\nCONSTANTS MaxLen = %d\nINVARIANT PolicyExact\nCHECK_DEADLOCK FALSE\n' % maxlen,
+                    env=dict(VERIF_RULES=vf))
+    rf = os.path.join(ctx.tmp, 'rule-rows.ndjson')
+    with open(rf, 'w') as f:
+        for r in rows:
+            f.write(json.dumps(r) + '\n')
+    res = os.path.join(ctx.tmp, 'rules.json')
+    mod.run([ctx.bin, 'rules', '-rows', rf, '-k', str(k), '-seed', str(ctx.seed), '-out', res], 3000)
+    r = json.load(open(res))
+    ctx.cov.update(rule_rows=r['rows'], rule_evaluations=r['executions'], rule_vectors=nvec, rule_max_string_length=maxlen,
+                   rule_rows_accepted=r['accepted'])
+    ctx.cov['traces_validated_against_impl'] += r['executions']
+    ctx.cov['samples'].append(dict(source='Rules.tla row', row=rows[len(rows) // 3]))
+    if r['accepted'] == 0 or r['accepted'] == r['executions']:
+        mod.die('rules enumeration is vacuous (all rows accepted or all rejected)')
+    if r['mismatches']:
+        violation(ctx, prop, 'rules:policy', dict(mismatches=r['mismatches'][:20]))
+
+
+def codecs(ctx, prop, mod):
+    """codec clauses of C07 (remember cookie) and C14 (OAuth2 PID)"""
+    maxuid = 4 if ctx.tier == 'quick' else 6
+    rows = tlc_enum(ctx, mod, 'Codecs', 'SPECIFICATION Spec\nCONSTANTS MaxUid = %d\n NonceLen = 2\nINVARIANTS RoundTrip Injective\n'
+                    'CHECK_DEADLOCK FALSE\n' % maxuid)
+    want = 'pid' if prop == 'C14' else 'tok'
+    rf = os.path.join(ctx.tmp, 'codec-rows.ndjson')
+    with open(rf, 'w') as f:
+        for r in rows:
+            if r['kind'] == want:
+                f.write(json.dumps(r) + '\n')
+    res = os.path.join(ctx.tmp, 'codecs.json')
+    mod.run([ctx.bin, 'codecs', '-rows', rf, '-k', '8' if ctx.tier == 'quick' else '64', '-out', res], 3000)
+    r = json.load(open(res))
+    ctx.cov.update({('codec_' + k): v for k, v in r.items() if k != 'mismatches'})
+    ctx.cov['traces_validated_against_impl'] += r['pid_rows'] + r['cookie_round_trips']
+    ctx.cov['samples'].append(dict(source='Codecs.tla row', row=[x for x in rows if x['kind'] == want][-1]))
+    if r['mismatches']:
+        violation(ctx, prop, 'codec:' + r['mismatches'][0]['kind'], dict(mismatches=r['mismatches'][:20]))
